@@ -23,7 +23,7 @@ fn c20_custom_stats() {
     let cdps: Option<u32> = kani::any();
     let pht: Option<u32> = kani::any();
     unsafe {
-        crate::vsup::VCFG_DYN = crate::vsup::VCfg { mode: 1, cdps, pht, ..crate::vsup::VCFG0 };
+        crate::vsup::VCFG_DYN.cfg = crate::vsup::VCfg { mode: 1, cdps, pht, ..crate::vsup::VCFG0 };
     }
     let before = sc.err_count();
     sc.validate_custom_stats(crate::vsup::vcfg_dyn());
